@@ -1,6 +1,7 @@
 """C17 -- parameter initialisation (structural clauses)."""
 from ..rules import r5 as r5h_mod
 from ..rules import r6e as r6t_mod
+from ..rules import r14 as r14w_mod
 from ..core import Ctx, Ob, PropSpec
 from ..rules import extra2, r1, r3, r4, r4lite, r10
 
@@ -17,6 +18,7 @@ def run(ctx: Ctx) -> list[Ob]:
     obs.append(extra2.must_call_on_all_paths(ctx, 'cirkit.backend.torch.parameters.nodes.TorchTensorParameter.reset_parameters', '_initializer_', 'R4i', 'reset-initialises', 'reset_parameters must re-draw / re-copy every tensor from its initialiser, learnable or not: constants are copied back and frozen random tensors re-drawn on every reset'))
     obs += r5h_mod.r5h(ctx)
     obs += r6t_mod.r6t(ctx)
+    obs += r14w_mod.arrays_copied_as_given(ctx)
     return obs
 
 
@@ -35,10 +37,11 @@ SPEC = PropSpec(
         " R10j: TorchCircuit.reset_parameters visits, for every layer, its params and (recursively) the layers in its sub_modules -- the tensors of a layer wrapped by an evidence layer are allocated and initialised with the rest."
         ' R5h: the two axis idioms put axis 0 on the right side -- in `d if d >= 0 else d + len(shape)` (normalisation) axis 0 stays, in `a if a < 0 else a + 1` (shift past the fold dimension) every non-negative axis, 0 included, moves by one; the branch taken at 0 is derived from the comparison operator of each such conditional expression.'
         ' R6t: a registry class constructed from a mapping it later mutates (add_rule) copies that mapping in its constructor: the compilers are built from the module-level default rule tables, and a registry that keeps the dict it was given makes a rule added to one compiler / pipeline context active in every other one.'
+        ' R14w: an array constant is copied exactly whatever its memory layout and whenever it is (re-)initialised: what torch.from_numpy is given passes through np.ascontiguousarray / .copy() (it refuses negative strides), and an in-place initialiser takes the dtype from the tensor it fills, with no detour through torch.get_default_dtype().'
     ),
     not_decided=(
         "statistical moments of the samples."
     ),
     run=run,
-    floors={"R6t": 1, "R5h": 8, "R4i": 9, "R1a": 4, "R1b": 4, "R1c": 12, "R4": 3},
+    floors={"R14w": 3, "R6t": 1, "R5h": 8, "R4i": 9, "R1a": 4, "R1b": 4, "R1c": 12, "R4": 3},
 )
